@@ -3,6 +3,7 @@ package world
 import (
 	"fmt"
 	"testing"
+	"time"
 
 	"verif/sim/memnet"
 	"verif/sim/wire"
@@ -69,6 +70,83 @@ func Single(t *testing.T, routerID string, p PeerSpec, out bool, delays []int64,
 		}
 		body(w, c)
 		w.Finish()
+	})
+	return o, setupErr
+}
+
+// PrevSession is an earlier session of the peer under test (on the outbound
+// direction: of the same FSM object): Established with the given remote hold
+// time, then ended by the remote with a TCP close ("fin") or a Cease ("cease").
+type PrevSession struct {
+	Hold uint16 `json:"hold"`
+	End  string `json:"end"`
+}
+
+// SinglePrev is Single preceded by earlier sessions on the same direction.
+func SinglePrev(t *testing.T, routerID string, p PeerSpec, out bool, delays []int64, prev []PrevSession, body func(w *World, c *memnet.Conn)) (o Outcome, setupErr error) {
+	if len(prev) == 0 {
+		return Single(t, routerID, p, out, delays, body)
+	}
+	o = Run(t, func() {
+		w, err := New(routerID, delays)
+		if err != nil {
+			setupErr = err
+			return
+		}
+		defer w.Finish()
+		if out {
+			plans := make([]memnet.DialPlan, len(prev)+1, len(prev)+2)
+			for i := range plans {
+				plans[i] = memnet.DialPlan{Kind: memnet.Accept}
+			}
+			w.Net.SetPlans(p.RemoteAddr(), append(plans, memnet.DialPlan{Kind: memnet.Refuse})...)
+		}
+		if err := w.AddPeer(p); err != nil {
+			setupErr = fmt.Errorf("AddPeer: %w", err)
+			return
+		}
+		w.Serve()
+		w.Settle()
+		get := func(k int) *memnet.Conn {
+			if !out {
+				c := w.Inbound(p.Remote, LocalFor(p))
+				w.Settle()
+				return c
+			}
+			if !w.Net.WaitDials(k+1, 10*time.Minute) {
+				return nil
+			}
+			w.Settle()
+			return w.Net.Dials()[k].Conn
+		}
+		for k, ps := range prev {
+			c := get(k)
+			if c == nil {
+				setupErr = fmt.Errorf("no connection for earlier session %d", k)
+				return
+			}
+			id := uint32(0x0a000002)
+			if routerID == "10.0.0.2" {
+				id++ // never the local identifier
+			}
+			Handshake(w, p, c, ps.Hold, id)
+			if w.Sessions(p.Remote) != k+1 {
+				setupErr = fmt.Errorf("earlier session %d (remote hold %d) did not establish", k, ps.Hold)
+				return
+			}
+			if ps.End == "cease" {
+				c.RemoteSend(wire.Notif{Code: 6, Sub: 4}.Frame(), nil)
+				w.Settle()
+			}
+			c.RemoteClose()
+			w.Settle()
+		}
+		c := get(len(prev))
+		if c == nil {
+			setupErr = fmt.Errorf("no connection after %d earlier sessions", len(prev))
+			return
+		}
+		body(w, c)
 	})
 	return o, setupErr
 }
